@@ -266,6 +266,136 @@ func c18Enumerate(t *testing.T, maxSeg int) int {
 	return failed
 }
 
+// ---------- sequences: one instance, many operations ----------
+
+type c18Step struct {
+	Op   string `json:"op"`
+	Path string `json:"path"`
+}
+
+type c18SeqCase struct {
+	Root     []string  `json:"root"`
+	RootTail string    `json:"root_tail,omitempty"`
+	Steps    []c18Step `json:"steps"`
+}
+
+// genC18Seq draws a history of operations on one wrapper. The verdict on a path may not depend on what the
+// instance was asked before, so the paths are short and drawn from a pool in which allowed spellings of
+// the root itself, of files directly below it, and of the root's siblings and parent are all frequent.
+func genC18Seq(t *rapid.T) c18SeqCase {
+	c := c18SeqCase{}
+	for i, n := 0, rapid.IntRange(0, 3).Draw(t, "rootdepth"); i < n; i++ {
+		c.Root = append(c.Root, pick(t, c18DrawNames[:5], "rootseg"))
+	}
+	if len(c.Root) > 0 {
+		c.RootTail = pick(t, []string{"", "", "/", "/."}, "roottail")
+	}
+	ns := rapid.IntRange(2, 10).Draw(t, "nsteps")
+	for i := 0; i < ns; i++ {
+		var p string
+		switch k := rapid.IntRange(0, 9).Draw(t, "pathkind"); {
+		case k < 2:
+			p = pick(t, []string{".", "", "/", "./", "a/..", "/.//", "a/b/../.."}, "rootspelling")
+		case k < 5:
+			p = pick(t, []string{"../", "../../", "a/../../", "/../", "../a/../", "/a/../../"}, "up") + pick(t, c18DrawNames, "upname")
+			if rapid.Bool().Draw(t, "updeeper") {
+				p += "/" + pick(t, c18DrawNames, "upname2")
+			}
+		case k < 6 && len(c.Root) > 0:
+			// leave and come back through the root's own name
+			p = strings.Repeat("../", len(c.Root)) + strings.Join(c.Root, "/") + "/" + pick(t, c18DrawNames, "backname")
+		default:
+			n := rapid.IntRange(1, 4).Draw(t, "nseg")
+			segs := make([]string, n)
+			for j := range segs {
+				segs[j] = pick(t, append([]string{".", "..", ""}, c18DrawNames...), "seg")
+			}
+			p = strings.Join(segs, "/")
+			if rapid.Bool().Draw(t, "absolute") {
+				p = "/" + p
+			}
+		}
+		c.Steps = append(c.Steps, c18Step{Op: pick(t, c18Ops13, "op"), Path: p})
+	}
+	return c
+}
+
+func checkC18Seq(x *X, c c18SeqCase) error {
+	rootPath := c18RootPath(c.Root)
+	// a recorder that answers "does not exist" itself: only what reaches it matters here (afero's
+	// MemMapFs panics while holding its lock when the root directory itself is renamed)
+	rec := &c18Rec{}
+	fs := syslutil.NewChrootFs(rec, rootPath+c.RootTail)
+	var history []string
+	sawRootBeforeOutside, insideN, outsideN := false, 0, 0
+	rootTouched := false
+	for i, st := range c.Steps {
+		inside, canon, _ := c18Resolve(c.Root, c.Root, st.Path)
+		rec.calls = nil
+		_, err := c18Perform(fs, st.Op, st.Path)
+		history = append(history, fmt.Sprintf("%s(%q)", st.Op, st.Path))
+		desc := func() string {
+			return fmt.Sprintf("root=%q, step %d of the history %v on one instance; reference: inside=%v canonical=%q; reached the filesystem below: %v; returned error: %v",
+				rootPath+c.RootTail, i+1, history, inside, canon, rec.calls, err)
+		}
+		for _, call := range rec.calls {
+			for j, p := range call.Paths {
+				segs, ok := c18Segments(p)
+				if ok && c18Under(c.Root, segs) {
+					continue
+				}
+				role := call.Op
+				if call.Op == "Rename" {
+					role += []string{"-source", "-target"}[j]
+				}
+				return finding("escape:"+role, "a path outside the root reached the filesystem (%s argument %q): %s", role, p, desc())
+			}
+		}
+		if !inside {
+			outsideN++
+			if rootTouched {
+				sawRootBeforeOutside = true
+			}
+			if len(rec.calls) > 0 {
+				return finding("outside-served:"+st.Op, "a path that resolves outside the root was mapped to a file inside it: %s", desc())
+			}
+			if err == nil {
+				return finding("outside-no-error:"+st.Op, "a path outside the root was refused silently (no error): %s", desc())
+			}
+			continue
+		}
+		insideN++
+		if canon == rootPath {
+			rootTouched = true
+		}
+		wantOp, wantPaths := st.Op, []string{canon}
+		companion := strings.TrimSuffix(rootPath, "/") + "/" + c18Companion
+		switch st.Op {
+		case "Rename-source":
+			wantOp, wantPaths = "Rename", []string{canon, companion}
+		case "Rename-target":
+			wantOp, wantPaths = "Rename", []string{companion, canon}
+		}
+		if len(rec.calls) != 1 || rec.calls[0].Op != wantOp || strings.Join(rec.calls[0].Paths, "\x00") != strings.Join(wantPaths, "\x00") {
+			return finding("inside-not-canonical:"+st.Op, "an in-root path did not reach the filesystem as %s%q: %s", wantOp, wantPaths, desc())
+		}
+	}
+	x.Class("seq:history")
+	if sawRootBeforeOutside {
+		x.Class("seq:outside-path-after-an-operation-on-the-root-itself")
+	}
+	if insideN > 0 && outsideN > 0 {
+		x.Class("seq:inside-and-outside-on-one-instance")
+		x.NonTrivial(rootPath + c.RootTail + "\x00" + strings.Join(history, "\x00"))
+	}
+	x.Sample(fmt.Sprintf("root=%q history=%v", rootPath+c.RootTail, history))
+	return nil
+}
+
+var c18Seqs = Define("C18", "sequences",
+	"Histories of 2..10 operations on ONE ChrootFs instance (root depth 0..3, optional trailing '/' or '/.') over a recording filesystem: paths drawn from allowed spellings of the root itself ('.', '', '/', 'a/..'), escapes to the root's parent, siblings and grandparents ('../x', 'a/../../x', '/../x', one or two segments deep), paths that leave and re-enter through the root's own name, and 1..4 free segments; all 13 operations. Oracle per step as in 'ops' (the verdict on a path never depends on earlier operations): outside -> error and nothing reaches the filesystem below; inside -> exactly one call on the canonical path. Non-trivial: the history has both inside and outside steps; distinct by history.",
+	genC18Seq, checkC18Seq)
+
 // ---------- imports ----------
 
 type c18ImportCase struct {
@@ -462,6 +592,7 @@ func TestC18(t *testing.T) {
 		return // rapid refuses a *testing.T that has already failed; the violations are recorded
 	}
 	c18Ops.Run(t, scale(20000, 60000))
+	c18Seqs.Run(t, scale(6000, 40000))
 	c18Imports.Run(t, scale(800, 3000))
 }
 
